@@ -27,6 +27,7 @@ META = {
 
 
 META['explanation'] += ' Rounds 4-5: ' + "R5: is_child_path decided by constant propagation on path pairs (helpers followed). R9 (= C16.R13) the loader's qualifier-suffix loop and guess_unique_key_id_element are interpreted over every loop of every shipped map: same-position segments get distinct counter paths. R10 _is_loop_match decided recursively on wrapper loops: matches iff any child loop matches."
+META['explanation'] += ' After round 6: R12 repeat limits of segments and loops decided by constant propagation (error exactly beyond the limit).'
 META['technique'] = META.get('technique', 'static analysis: AST/CFG rules over /repo source + shipped XML data') + '; conditional constant propagation over the CFG on finite, complete input domains (DESIGN.md 10.4.1)'
 
 
@@ -498,6 +499,41 @@ class _LoopM(object):
         return self.name
 
 
+def r12_repeat_limits(ctx):
+    """a segment or loop is reported as repeated too often exactly when its count exceeds the declared limit - a count equal
+    to the limit is conformant: _check_seg_usage / _check_loop_usage decided by constant propagation for usage R/S, counts
+    limit-1, limit, limit+1 (limits 1, 2, 50 and "unlimited")."""
+    from ..absint import traces, NotClosedTest
+    for meth, code, pname in (('_check_seg_usage', '5', 'seg_node'), ('_check_loop_usage', '4', 'loop_node')):
+        fn = ctx.func('map_walker', 'walk_tree.' + meth)
+        g = ctx.cfg(fn)
+        bad = []
+        runs = 0
+        for usage in ('R', 'S'):
+            for limit in (1, 2, 50, 2147483647):
+                for cnt in (max(limit - 1, 0), limit, limit + 1) if limit < 2147483647 else (1, 5000):
+                    node = A.Model('node', usage=usage, id='X', x12path='p', name='n', get_max_repeat=lambda limit=limit: limit, is_loop=lambda: True)
+                    counter = A.Model('counter', get_count=lambda p_, cnt=cnt: cnt, reset_to_node=lambda p_: None, increment=lambda p_: None)
+                    seg = A.Model('seg', get_seg_id=lambda: 'X')
+                    env = {pname: node, 'self.counter': counter, 'seg_data': seg, 'seg_count': 1, 'cur_line': 1, 'ls_id': None}
+
+                    def key(c):
+                        r, m = A.call_target(c)
+                        return 'report' if r == 'errh' and m == 'seg_error' else None
+                    try:
+                        res = traces(g, env, key)
+                    except NotClosedTest as e:
+                        raise AnalysisError('walk_tree.%s cannot be decided: %s' % (meth, e))
+                    runs += 1
+                    want = {code} if cnt > limit else set()
+                    for tr, _e in res:
+                        got = {a_[1][0] for a_ in tr}
+                        if got != want and len(bad) < 3:
+                            bad.append('usage %s, limit %d, occurrence %d: reports %s, expected %s' % (usage, limit, cnt, sorted(got), sorted(want)))
+        yield Ob('map_walker:walk_tree.%s reports a repeat exactly beyond the declared limit (code %s)' % (meth, code), not bad, ctx.floc(fn),
+                 '' if not bad else bad[0], note='%d combinations' % runs)
+
+
 def r10_wrapper_loops(ctx):
     """a loop that only wraps other loops (DETAIL, TABLE2AREA3 ...) matches a segment when ANY of its child loops does -
     a document may start with the second kind of detail loop.  walk_tree._is_loop_match decided by constant
@@ -629,6 +665,7 @@ RULES = [
     Rule('C02.R6', 'shared with C13.R1/R3/R4: the recognisers accept every value of the X12 value languages', r6_shared_recognisers, floor=33),
     Rule('C02.R7', 'the map-switch key (BHT02) is never carried from one transaction set to the next', r7_no_stale_map_key, floor=1),
     Rule('C02.R11', 'shared with C18.R2: the validating modules keep no module/class-level state and cache nothing across calls', r11_no_state_between_documents, floor=8),
+    Rule('C02.R12', 'repeat limits: an error exactly when the count exceeds the limit (constant propagation)', r12_repeat_limits, floor=1),
     Rule('C02.R10', '_is_loop_match: a wrapper loop matches iff any child loop matches (constant propagation, recursive)', r10_wrapper_loops, floor=1),
     Rule('C02.R9', 'shared with C16.R13: same-position segments get distinct counter paths (loader suffix code interpreted over the maps)', r9_shared_path_suffix, floor=100),
     Rule('C02.R8', 'shared with C01.R3/R5: no segment is damaged at a buffer boundary', r8_shared_tokenizer, floor=6),
